@@ -159,7 +159,7 @@ fn same_layout_other_type(t: &Ty) -> Option<Ty> {
 pub fn run(rep: &Report) -> i32 {
     let quick = rep.is_quick();
     let sets = slot_sets(quick);
-    rep.set("bounds", json!({"programs": sets.len(), "parameters_per_program": "0..4", "positions": ["main", "called function", "uncalled function"], "argument_maps": ["exact", "each name missing", "extra name", "each name same-layout-other-type", "each name other-layout"]}));
+    rep.set("bounds", json!({"programs": sets.len(), "parameters_per_program": "0..4", "positions": ["main", "called function", "uncalled function"], "argument_maps": ["exact", "each name missing", "extra name", "each name same-layout-other-type", "each name other-layout", "each name at a type differing only in a position its value does not inhabit"]}));
     par_for(&sets, rep, 8, |i, slots| {
         drive::DUMMY.with(|env| check_program(rep, slots, i, env));
     });
@@ -237,7 +237,7 @@ fn check_program(rep: &Report, slots: &[Slot], idx: usize, env: &drive::Env) {
         let mut maps: Vec<(String, Vec<(String, Val, Ty)>, bool, bool)> = vec![];
         if round == 0 {
             let n = params.len();
-            let sizes = vec![4usize; n];
+            let sizes = vec![5usize; n];
             let mut combos: Vec<Vec<usize>> = vec![];
             crate::explore::product(&sizes, |ix| combos.push(ix.to_vec()));
             if n == 0 {
@@ -271,6 +271,20 @@ fn check_program(rep: &Report, slots: &[Slot], idx: usize, env: &drive::Env) {
                                 }
                                 None => m.push(exact[k].clone()),
                             },
+                            4 => {
+                                // a type that differs only where some value of the parameter type has nothing (None's
+                                // payload, the other side of a Left / Right, the elements of an empty list)
+                                let hidden = gen::vals(&params[k].1, 8).into_iter().find_map(|v| hidden_position_variant(&params[k].1, &v).map(|t| (v, t)));
+                                match hidden {
+                                    Some((v, t)) if t != params[k].1 => {
+                                        m.push((params[k].0.clone(), v, t));
+                                        ok = false;
+                                        nontrivial = true;
+                                        label.push_str(&format!("hidden-position-{} ", params[k].0));
+                                    }
+                                    _ => m.push(exact[k].clone()),
+                                }
+                            }
                             _ => {
                                 let other = if same_layout(&params[k].1, &Ty::U(32)) { Ty::U(64) } else { Ty::U(32) };
                                 m.push((params[k].0.clone(), zero_val(&other), other));
